@@ -203,3 +203,51 @@ Theorem C08_context_functions_shared_memo_refuted :
       Some (Some (cspec (cs_funcs h) c code a)).
 Proof. exact ctx_memo_refuted. Qed.
 Print Assumptions C08_context_functions_shared_memo_refuted.
+
+(* "each with its own data", struct data and members that are not there: the members of a value
+   are derived from the call's own value by pure helpers, on the spot (Map.convert, Map.Member
+   with its name-folding fallbacks); nothing is kept per Go type, no helper keeps state.  Any
+   number of renders, struct or map data, any schedule, whether or not a type has ever been
+   rendered before: each render returns the members of ITS value ([mspec] mentions neither
+   another render nor any history), the shared state is unchanged *)
+Theorem C08_member_conversion_reads_only : reads_only (mstep MAsIs).
+Proof. exact mstep_reads_only. Qed.
+Print Assumptions C08_member_conversion_reads_only.
+
+Theorem C08_members_are_of_own_data :
+  forall (sched : list nat) (h : mshared) (l : list mstate) (i : nat)
+         (d : mdata) (code : list bytes),
+  nth_error l i = Some (new_mrender d code) ->
+  S (length code) < count i sched ->
+  option_map mresult (nth_error (rs (run (mstep MAsIs) sched (mkSys h l))) i) =
+    Some (Some (mspec (ms_types h) d code))
+  /\ sh (run (mstep MAsIs) sched (mkSys h l)) = h.
+Proof. exact member_engine_own_data. Qed.
+Print Assumptions C08_members_are_of_own_data.
+
+(* ... and it is the absence of shared helpers' state that makes it so.  With the member names
+   remembered per type in the shared state, the entry published before it is filled, the same
+   statement is false for renders that meet a type for the first time together (although one
+   render at a time is right, and everything is right for ever once a type has been converted
+   alone: SchedProofs.member_cache_sequential_is_right) ... *)
+Theorem C08_member_names_per_type_cache_refuted :
+  exists (sched : list nat) (h : mshared) (l : list mstate) (i : nat)
+         (d : mdata) (code : list bytes),
+    nth_error l i = Some (new_mrender d code) /\
+    S (length code) < count i sched /\
+    option_map mresult (nth_error (rs (run (mstep MTypeCache) sched (mkSys h l))) i) <>
+      Some (Some (mspec (ms_types h) d code)).
+Proof. exact member_type_cache_refuted. Qed.
+Print Assumptions C08_member_names_per_type_cache_refuted.
+
+(* ... and with the title-casing of the slow path done by one shared stateful helper it is false
+   for renders that read members which are not there at the same time *)
+Theorem C08_member_shared_caser_refuted :
+  exists (sched : list nat) (h : mshared) (l : list mstate) (i : nat)
+         (d : mdata) (code : list bytes),
+    nth_error l i = Some (new_mrender d code) /\
+    S (length code) < count i sched /\
+    option_map mresult (nth_error (rs (run (mstep MSharedCaser) sched (mkSys h l))) i) <>
+      Some (Some (mspec (ms_types h) d code)).
+Proof. exact member_shared_caser_refuted. Qed.
+Print Assumptions C08_member_shared_caser_refuted.
